@@ -253,7 +253,11 @@ func (u *Unit) pheap(s *State, sort string) Term {
 	if h, ok := s.heaps[k]; ok {
 		return h
 	}
-	h := u.declOnce(fmt.Sprintf("heap.e%d.%s", s.epoch, sort), fmt.Sprintf("(Array Int %s)", sort))
+	ep := s.epoch
+	if u.p.immutableSorts[sort] {
+		ep = 0 // objects of this type are never written after construction
+	}
+	h := u.declOnce(fmt.Sprintf("heap.e%d.%s", ep, sort), fmt.Sprintf("(Array Int %s)", sort))
 	s.heaps[k] = h
 	return h
 }
@@ -285,7 +289,13 @@ func (u *Unit) havocHeaps(s *State, why string) {
 	// lazily created symbols are named after the epoch.
 	u.nepoch++
 	s.epoch = u.nepoch
-	s.heaps = map[string]Term{}
+	kept := map[string]Term{}
+	for k, v := range s.heaps {
+		if strings.HasPrefix(k, "p:") && u.p.immutableSorts[k[2:]] {
+			kept[k] = v
+		}
+	}
+	s.heaps = kept
 	for k := range s.cells {
 		if g, ok := k.(*ssa.Global); ok && u.globalMutable(g) {
 			delete(s.cells, k)
